@@ -26,9 +26,9 @@ SOURCES = [
     "src/ampform/helicity/align/dpd.py", "src/ampform/kinematics/__init__.py",
     "src/ampform/kinematics/angles.py", "src/ampform/kinematics/lorentz.py", "src/ampform/dynamics/builder.py",
 ]
-SOUND = {"zeroDefs": "r", "regCombTopos": True, "selCoversComb": True}
+SOUND = {"zeroDefs": "r", "regCombTopos": True, "selCoversComb": True, "perChainSyms": True}
 N_CASES = {"quick": {"corpus_cfgs": 5, "synthetic": 110, "malformed": 14, "four_axis": 8, "cost_cap": 400, "time_cap": 60, "oracle_extra": 60},
-           "thorough": {"corpus_cfgs": 30, "synthetic": 1500, "malformed": 150, "four_axis": 60, "cost_cap": 1500, "time_cap": 240, "oracle_extra": 600}}
+           "thorough": {"corpus_cfgs": 20, "synthetic": 800, "malformed": 80, "four_axis": 40, "cost_cap": 700, "time_cap": 120, "oracle_extra": 400}}
 
 
 # --------------------------------------------------------------------------- cases
@@ -121,6 +121,18 @@ def infer_variant(R, corpus, chk) -> tuple[dict, list[dict]]:
         for f in R.oracle(model3):
             failures.append({"probe": "J/psi -> pi0 pi0 gamma via omega(782) (corpus jpsi_pi0pi0g_omega_hel), Breit-Wigner on omega",
                              "class": "identical final-state particles: swapped-topology kinematic variables not registered", **f})
+    # per-chain amplitude symbols (fix f1f7ff8): two identical photons with unequal helicities
+    r4 = corpus["psi2s_ggjpsi_hel"]
+    ans4, model4 = R.real_answer(r4, R.default_cfg(r4))
+    if model4 is not None:
+        nonzero = set(map(tuple, ans4["defs"])) - set(map(tuple, ans4["zero"]))
+        mixed = [k for k in nonzero if k[1][1] * k[1][2] < 0]  # photon helicities (-1,+1) / (+1,-1)
+        mirrored = [k for k in mixed if (k[0], (k[1][0], k[1][2], k[1][1], *k[1][3:])) in nonzero]
+        v["perChainSyms"] = bool(mirrored) or not mixed
+        probes["photon_pairs_both_nonzero"] = v["perChainSyms"]
+        for f in R.oracle(model4):
+            failures.append({"probe": "psi(2S) -> gamma gamma J/psi via chi_c1 (corpus psi2s_ggjpsi_hel)",
+                             "class": f.get("what", "?"), **f})
     chk.info("variant_probes", probes)
     return v, failures
 
@@ -160,6 +172,17 @@ class C01Property:
         # ---- 1. proofs
         res = common.prove(PROP_ID, self.prop_modules)
         chk.record_proof(res, "cd lean && lake build Ampverif.Props.C01 && lake env lean Ampverif/Audit/C01.lean (#print axioms)")
+        if tier == "thorough" and res["build_ok"]:
+            import subprocess
+
+            try:
+                p = subprocess.run(["lake", "env", "leanchecker", *self.prop_modules], cwd=common.LEAN, capture_output=True,
+                                   text=True, timeout=900)
+                chk.info("leanchecker", "ok" if p.returncode == 0 else (p.stdout + p.stderr)[-400:])
+                if p.returncode != 0:
+                    chk.broken.append({"kind": "proof", "theorem": "<leanchecker>", "detail": (p.stdout + p.stderr)[-400:]})
+            except subprocess.TimeoutExpired as e:
+                raise common.InfraError("leanchecker timed out") from e
 
         # ---- 2. which variant does the code implement?
         corpus = R.load_corpus()
@@ -353,20 +376,23 @@ MANIFEST = {
     "technique": "Lean 4 theorems about an executable builder model (symbol sets), T2 correspondence with the real formulate() on corpus + synthetic reactions x random configurations, independent oracle = the property statement on every real model",
     "design_ref": "DESIGN.md §3 C01",
     "text": (
-        "Proof. Model/C01Builder.lean follows formulate()/__register_amplitudes/__define_missing_amplitudes, the name "
-        "generators (incl. the parity-partner registration loop), the three alignments' index wiring, the adapter's key "
-        "set and the stable-mass / scalar-initial-mass moves line by line on symbol sets; the identical-particle "
-        "combinatorics are an input. Proved for ALL reactions/configurations: C01_refs_defined (with the zero definitions "
-        "of fix e6c0bd9 every amplitude symbol of the unfolded intensity has a definition, all three alignments), "
-        "C01_refs_defined_product (fix 5659807 alone suffices for NoAlignment/DPD), C01_kin_closed (non-momentum symbols in "
-        "kinematic-variable definitions are parameters, all alignments), C01_builder_contract, C01_classes_disjoint, and "
-        "C01_xor_partial: for NoAlignment every free symbol of the expression is in exactly one of parameter_defaults / "
-        "kinematic_variables (any well-formed isobar trees, any stable ids / scalar mass / couplings / naming flags / dynamics "
-        "by name / permuted topologies), given that the combinatorics topologies are registered (fix 2671c82). PARTIAL: the "
-        "xor statement for AxisAngle/DPD is only stated (C01_xor_full_statement) and checked by correspondence + oracle, not proved. "
-        "Witness theorems (decide) for the three unsound variants: C01_witness_missing (eta_c -> Lambda Lambda~ without zero "
-        "definitions), C01_witness_axis_partial, C01_witness_unregistered; the check infers the variant the code implements "
-        "by probes and replays the witness on the real code."
+        "Proof. Model/C01Builder.lean follows formulate()/__register_amplitudes/__formulate_topology_amplitude/"
+        "__define_missing_amplitudes, the name generators (incl. the parity-partner registration loop), the three alignments' "
+        "index wiring, the adapter's key set (incl. permuted and combinatorics topologies) and the stable-mass / scalar-initial-mass "
+        "moves and the DPD back-substitution loop line by line on symbol sets; the identical-particle combinatorics are an input. "
+        "Proved for ALL reactions and configurations (induction over trees / lists, no bounds): C01_refs_defined + C01_no_undefined "
+        "(with the zero definitions of fix e6c0bd9 every amplitude symbol of the unfolded intensity has a definition, all three "
+        "alignments), C01_refs_defined_product (fix 5659807 alone suffices for NoAlignment/DPD), C01_xor (sound variant, well-formed "
+        "isobar trees, formulate() succeeds: every free symbol of the expression is in exactly one of parameter_defaults / "
+        "kinematic_variables — NoAlignment, AxisAngleAlignment and DalitzPlotDecomposition, any stable ids / scalar mass / couplings "
+        "/ naming flags / dynamics by name / permuted topologies; the name classes C_{ H_{ m_{ \\Gamma_{ d_{ c_{ vs phi_ theta_ "
+        "m_<digit> alpha_ beta_ gamma_ \\zeta^ are disjoint for ANY particle names, so the hypothesis 'names are not digit strings' "
+        "is not needed), C01_xor_partial (NoAlignment without the zero-definition and error hypotheses), C01_kin_closed (non-momentum "
+        "symbols in kinematic-variable definitions are parameters, all alignments), C01_builder_contract, C01_classes_disjoint. "
+        "Witness theorems (decide) for the unsound variants: C01_witness_missing(_which) (eta_c -> Lambda Lambda~ without zero "
+        "definitions), C01_witness_axis_partial, C01_witness_unregistered; the check infers the variant the code implements by "
+        "probes and replays the witness on the real code. Not modelled: the VALUES of parameter defaults (C13) and the expressions "
+        "of kinematic variables beyond their symbol dependencies (C07)."
     ),
     "level_note": (
         "Trusted: Lean kernel (axioms propext, Quot.sound at most); the harness tools/corr/C01_real.py; the model is tied to "
